@@ -163,6 +163,17 @@ def links(case):
     return dict(out=out, errs=errs, pages=gathered)
 
 
+# ------------------------------------------------------------------------------ 3b. rectangle_aabb (direct)
+
+def aabb(case):
+    """case: dict(m=None|[a,b,c,d,e,f], r=[x,y,w,h]) as 'n/d' strings; the real Matrix with Fraction entries."""
+    from weasyprint.anchors import rectangle_aabb
+    from weasyprint.matrix import Matrix
+    m = None if case['m'] is None else Matrix(*[Fraction(v) for v in case['m']])
+    out = rectangle_aabb(m, *[Fraction(v) for v in case['r']])
+    return [str(Fraction(v)) for v in out]
+
+
 # ------------------------------------------------------------------------------ 4. dates (direct)
 
 def dates(case):
@@ -268,9 +279,11 @@ def render_doc(case):
 
     def walk(box, pi):
         el = getattr(box, 'element', None)
-        if el is not None and not isinstance(box, (bx.TextBox, bx.LineBox)) and box.element_tag == el.tag:
-            if el.get('data-k'):
-                geo.append([pi, el.get('data-k'), el.get('id'), el.tag, list(box.hit_area()), type(box).__name__])
+        if el is not None and not isinstance(box, (bx.TextBox, bx.LineBox)) and isinstance(el.tag, str) and (
+                box.element_tag == el.tag or box.element_tag.startswith(el.tag + '::')):
+            if el.get('data-k'):      # key = data-k of the element + '::before' / '::after' for its pseudo-element boxes
+                geo.append([pi, el.get('data-k') + box.element_tag[len(el.tag):], el.get('id'), el.tag,
+                            list(box.hit_area()), type(box).__name__])
         for c in box.all_children():
             walk(c, pi)
     for pi, p in enumerate(doc.pages):
